@@ -10,7 +10,7 @@
   3. TLC (spec/TraceHistory.tla) judges every record: every route's result against
      the chain semantics, the hook events of the combined runs against the order
 """
-import json
+import json, os
 import fam_run as fr
 from vlib import Infra, load_known, read_ndjson, write_ndjson, pmap, NCPU
 
@@ -372,7 +372,11 @@ def execute(ctx, scs):
     def one(ix):
         tf = ctx.path("trace", "c09-%d.ndjson" % ix)
         of = ctx.path("trace", "c09-%d.verdicts.ndjson" % ix)
-        write_ndjson(tf, [lines[i] for i in idx[ix]])
+        part = [lines[i] for i in idx[ix]]
+        if os.environ.get("VERIF_SELFTEST") == "corrupt" and ix == 0:
+            # falsify one observation: the result of the first route of the first record gets another package name
+            part[0] = dict(part[0], routes=[dict(part[0]["routes"][0], pkg="corrupted")] + part[0]["routes"][1:])
+        write_ndjson(tf, part)
         ctx.tlc("TraceHistory", CFG_TRACE % dict(trace=tf, out=of), "trace-c09-%d" % ix, workers=1, timeout=3000)
         vs = read_ndjson(of)
         if len(vs) != len(idx[ix]):
